@@ -61,6 +61,7 @@ class Scenario:
         self.deps = deps
         self.max_group_perm = max_group_perm
         self.context = None               # surroundings of the run (p_sched.apply_context)
+        self.close_streams = False        # every child closes stdout and stderr as soon as it has started
 
     def describe(self):
         return {
@@ -69,13 +70,14 @@ class Scenario:
             "args": self.args, "commands": self.commands, "checkpoint": self.checkpoint,
             "changed": self.changed, "faults": [[c, t, code] for (c, t), code in sorted(self.faults.items())],
             "eager": sorted(list(e) for e in self.eager), "explicit": self.explicit, "deps": self.deps,
-            "sequences": self.sequences, "context": self.context,
+            "sequences": self.sequences, "context": self.context, "close_streams": self.close_streams,
         }
 
     @staticmethod
     def from_desc(d):
         sn = Scenario._from_desc(d)
         sn.context = d.get("context")
+        sn.close_streams = bool(d.get("close_streams"))
         return sn
 
     @staticmethod
@@ -167,6 +169,9 @@ def run_once(s, r, sn, groups, prefix, extra_env=None, on_group_complete=None):
                 if ch.id not in by_child:
                     pr = pair_of(r, ch)
                     by_child[ch.id] = pr
+                    if sn.close_streams:
+                        # the executable closes (redirects) both of its output streams and keeps running
+                        c.send(ch, ["closeout", "closeerr"])
                     ex.arrive.setdefault(pr, []).append(ch.arrive_seq)
                 if ch.state == "gone" and by_child[ch.id] not in ex.gone and ch.release_seq is not None:
                     ex.gone[by_child[ch.id]] = ch.gone_seq
@@ -174,6 +179,11 @@ def run_once(s, r, sn, groups, prefix, extra_env=None, on_group_complete=None):
         def do_release(ch):
             pr = by_child[ch.id]
             code = sn.faults.get(pr, 0)
+            if sn.close_streams:
+                # it keeps running for a while with both streams closed: anything that takes "both
+                # streams ended" for "the process ended" has time to act on that belief
+                c.wait(lambda: p.done(), 0.45)
+                note()
             c.release(ch, code, ["out " + ctlmod.hexs("%s:%s out\n" % pr), "err " + ctlmod.hexs("%s:%s err\n" % pr)])
             ex.release[pr] = ch.release_seq
             ex.codes[pr] = code
